@@ -40,8 +40,8 @@ func TestC08Sliding(t *testing.T) {
 			c := &infoCase{
 				kind:    kind,
 				info:    &gtab.Info{ScriptList: dfltScripts(), FeatureList: gtab.FeatureListInfo{f}, LookupList: ll},
-				classes: r.Classes,
-				desc:    []string{fmt.Sprintf("lookup list moved by %d bytes (feature with %d lookup indices)", 2*k, k)},
+				classes: r.Classes, noTrickle: k%40 != 0,
+				desc: []string{fmt.Sprintf("lookup list moved by %d bytes (feature with %d lookup indices)", 2*k, k)},
 			}
 			_, fl := checkInfo(c)
 			if fl != nil {
